@@ -199,6 +199,8 @@ def compare(inc, fresh, reverted_env=frozenset()) -> list[tuple[str, str, dict]]
                   "from_scratch": {p: _text(fresh.files[p]) for p in stale[:2]}}
         if any(s == "stale-env-dependency" for s, _, _ in found):
             sig, what = "stale-output-after-env-redefinition", "after a redefinition that dropped an environment variable"
+        elif any(s == "creator-that-lost-a-product-not-rerun" for s, _, _ in found):
+            sig, what = "stale-output-after-lost-product", "downstream of a creator that lost a product and was not rerun"
         elif reverted_env & _upstream_env(fresh.graph_canon, stale):
             names = sorted(reverted_env & _upstream_env(fresh.graph_canon, stale))
             sig = "env-value-reverted-not-noticed"
@@ -224,40 +226,26 @@ def compare(inc, fresh, reverted_env=frozenset()) -> list[tuple[str, str, dict]]
 
 
 def _lost_products_of_hashless_creators(inc_canon, fresh_canon, view_inc, view_fresh):
-    """When every difference between the two views is a file (with the lines that mention it)
-    that exists only from scratch and whose creator is, in the incremental graph, an attached
-    SUCCEEDED step without stored hash: the steps and files concerned, else None."""
+    """The root cause `after_lost_product without rerun`: steps that are attached and SUCCEEDED
+    without a stored hash in the incremental graph (only `Step.after_lost_product` leaves a
+    SUCCEEDED step without hash) while from scratch they have products that the incremental graph
+    lacks.  Returns the steps and the missing products, or None."""
     gi, gf = buildkit.parse_graph(inc_canon), buildkit.parse_graph(fresh_canon)
-    files, steps = [], set()
+    steps, lost = set(), set()
     for key, block in gf.items():
-        if block.detached or not key.startswith("file:"):
+        if block.detached or not key.startswith("step:"):
             continue
-        other = gi.get(key)
-        if other is not None and not other.detached:
-            continue
-        creators = [buildkit.strip_ref(c) for c in block.rel("creator")]
-        if not creators or not creators[0].startswith("step:"):
-            return None
-        mine = gi.get(creators[0])
+        mine = gi.get(key)
         if mine is None or mine.detached or mine.get("state") != ["SUCCEEDED"] or mine.get("inp_digest"):
-            return None
-        files.append(key[5:])
-        steps.add(creators[0])
-    if not files:
+            continue
+        have = {buildkit.strip_ref(p) for p in mine.rel("product")}
+        missing = {buildkit.strip_ref(p) for p in block.rel("product")} - have
+        if missing:
+            steps.add(key)
+            lost |= missing
+    if not steps:
         return None
-
-    def strip(view):
-        keep = []
-        for blk in view.split("\n\n"):
-            lines = [ln for ln in blk.split("\n") if ln.strip()]
-            if not lines or lines[0][5:] in files and lines[0].startswith("file:"):
-                continue
-            keep.append("\n".join(ln for ln in lines if not any(ln.rstrip().endswith("file:" + f) for f in files)))
-        return "\n\n".join(keep)
-
-    if strip(view_inc) != strip(view_fresh):
-        return None
-    return {"files": sorted(files), "steps": sorted(steps)}
+    return {"files": sorted(lost), "steps": sorted(steps)}
 
 
 def _text(b):
@@ -275,27 +263,23 @@ def gen_case(r):
     return model, hist
 
 
-def run_case(ctx, index: int, *, salt="hist"):
-    """Generate history `index`, run it, compare with the from-scratch build. Returns findings
-    (not yet reported) and a summary for the statistics."""
-    r = ctx.rng(salt, index)
-    model, hist = gen_case(r)
-    sim_seed = r.randrange(1 << 30)
-    results = projgen.run_history(projgen.render(model), hist.events, seed=sim_seed)
-    summary = {"index": index, "mutations": hist.mutations, "nbuild": len(results),
-               "watch": hist.events[-1][0] == "shutdown", "commands": sum(len(x.commands) for x in results)}
-    bad_status = [x.status for x in results if x.status not in ("done",)]
+def evaluate(initial, events, final_project, sim_seed, fresh_kwargs, reverted_env=frozenset()):
+    """Run the events on `initial`, build `final_project` from scratch, compare.
+    Returns `(findings, summary)`."""
+    results = projgen.run_history(initial, events, seed=sim_seed)
+    watch = bool(events) and events[-1][0] == "shutdown"
+    summary = {"nbuild": len(results), "watch": watch, "commands": sum(len(x.commands) for x in results)}
     found: list[tuple[str, str, dict]] = []
-    if bad_status:
-        x = next(x for x in results if x.status != "done")
+    bad = [x for x in results if x.status != "done"]
+    if bad:
+        x = bad[0]
         found.append((f"director-{x.status}", f"a build phase ended with status {x.status}: {(x.error or '')[-300:]}",
                       {"error": (x.error or "")[-1500:]}))
-        return found, summary, hist
+        return found, summary
     final = results[-1]
-    builds = results[:-1] if summary["watch"] else results
+    builds = results[:-1] if watch else results
     last = builds[-1]
-    fm = hist.final_model
-    fresh = projgen.fresh_build(projgen.render(fm), seed=sim_seed + 1, njob=2, resources=fm.resources)
+    fresh = projgen.fresh_build(final_project, seed=sim_seed + 1, **fresh_kwargs)
     summary["fresh_ok"] = fresh.ok
     summary["last_ok"] = last.ok
     if not fresh.ok:
@@ -303,16 +287,16 @@ def run_case(ctx, index: int, *, salt="hist"):
             # The reference itself does not succeed (e.g. an amended output of an optional step is
             # consumed): nothing to compare with.
             summary["skipped"] = "from-scratch build not successful, incremental build successful"
-        return found, summary, hist
+        return found, summary
     if not last.ok:
         found.append(("incremental-build-fails",
                       f"the last build of the history ended with {last.returncode!r} while a build from scratch "
                       f"of the same sources succeeds",
                       {"returncode": repr(last.returncode),
                        "rejected": [[x.label, x.rpc_errors] for x in last.runs if x.rpc_errors][:3],
-                       "log": last.log[-5:]}))
-        return found, summary, hist
-    for sig, what, extra in compare(final, fresh, _reverted_env(hist)):
+                       "warnings": [e[1] for e in last.events if e[0] == "WARNING"][:4], "log": last.log[-5:]}))
+        return found, summary
+    for sig, what, extra in compare(final, fresh, frozenset(reverted_env)):
         if sig == "succeeded-step-digest-differs" and _ran_during_creator_rerun(results, final, extra["step"]):
             # Behaviour 2 of notes/simdirector.md (owned by C03/C05): the step completed while its creator
             # was re-running and had re-declared a static input that was still UNCONFIRMED, so
@@ -321,6 +305,24 @@ def run_case(ctx, index: int, *, salt="hist"):
             found.append(("out-of-scope:step-digest-recorded-during-creator-rerun", extra["step"], {}))
         else:
             found.append((sig, what, extra))
+    return found, summary
+
+
+def run_case(ctx, index: int, *, salt="hist"):
+    """Generate history `index`, run it, compare with the from-scratch build. Returns findings
+    (not yet reported), a summary for the statistics and the history."""
+    r = ctx.rng(salt, index)
+    model, hist = gen_case(r)
+    sim_seed = r.randrange(1 << 30)
+    fm = hist.final_model
+    initial, final_project = projgen.render(model), projgen.render(fm)
+    fresh_kwargs = {"njob": 2, "resources": fm.resources}
+    reverted = sorted(_reverted_env(hist))
+    found, summary = evaluate(initial, hist.events, final_project, sim_seed, fresh_kwargs, reverted)
+    summary.update({"index": index, "mutations": hist.mutations})
+    if any(not sig.startswith("out-of-scope:") for sig, _, _ in found):
+        hist.explicit = buildkit.pack_case(initial, hist.events, final_project, sim_seed, fresh_kwargs,
+                                           {"reverted_env": reverted})
     return found, summary, hist
 
 
@@ -427,32 +429,14 @@ def run_tree_case(ctx, index: int, *, salt="tree"):
     r = ctx.rng(salt, index)
     trees, events, mutations = buildkit.gen_tree_history(r)
     seed = r.randrange(1 << 30)
-    results = projgen.run_history(trees[0].render(), events, seed=seed)
     case = {"mutations": mutations, "events": buildkit.describe_events(events),
             "plans": {p: info["parent"] for p, info in trees[0].plans.items()}}
-    found = []
-    bad = [x for x in results if x.status != "done"]
-    if bad:
-        found.append((f"director-{bad[0].status}", f"a build phase ended with status {bad[0].status}",
-                      {**case, "error": (bad[0].error or "")[-1200:]}))
-        return found, case
-    fresh = projgen.fresh_build(trees[-1].render(), seed=seed + 1, njob=2)
-    case["compared"] = fresh.ok
-    if not fresh.ok:
-        return found, case
-    last = results[-1]
-    if not last.ok:
-        found.append(("incremental-build-fails",
-                      f"the last build of the history ended with {last.returncode!r} while a build from scratch of "
-                      f"the same sources succeeds", {**case, "returncode": repr(last.returncode), "log": last.log[-5:],
-                                                     "warnings": [e[1] for e in last.events if e[0] == "WARNING"][:4]}))
-        return found, case
-    for sig, what, extra in compare(last, fresh):
-        if sig == "succeeded-step-digest-differs" and _ran_during_creator_rerun(results, last, extra["step"]):
-            found.append(("out-of-scope:step-digest-recorded-during-creator-rerun", extra["step"], {}))
-        else:
-            found.append((sig, what, {**case, **extra}))
-    return found, case
+    initial, final_project = trees[0].render(), trees[-1].render()
+    found, summary = evaluate(initial, events, final_project, seed, {"njob": 2})
+    case["compared"] = bool(summary.get("fresh_ok"))
+    if any(not sig.startswith("out-of-scope:") for sig, _, _ in found):
+        case["explicit"] = buildkit.pack_case(initial, events, final_project, seed, {"njob": 2})
+    return [(sig, what, {**case, **extra}) for sig, what, extra in found], case
 
 
 def report(ctx, index, salt, found, hist):
@@ -466,8 +450,10 @@ def report(ctx, index, salt, found, hist):
             "mutations": hist.mutations,
             "events": buildkit.describe_events(hist.events),
             **extra,
+            "explicit": getattr(hist, "explicit", None),
             "how": "props/c01.py run_case(ctx, index): projgen model + buildkit.gen_hist from ctx.rng(salt, index); "
-                   "the incremental history is compared with projgen.fresh_build(render(final model))",
+                   "the incremental history is compared with projgen.fresh_build(render(final model)); `explicit` "
+                   "holds the initial project, the events and the final project for props.c01.evaluate",
         }))
 
 
@@ -479,7 +465,7 @@ async def search(ctx):
 
     t0 = time.time()
     broken_runs = 0
-    n = ctx.budget(160, 3000)
+    n = ctx.budget(160, 2200)
     st = ctx.stats
     for i in range(n):
         found, summary, hist = await asyncio.to_thread(run_case, ctx, i)
@@ -512,7 +498,7 @@ async def search(ctx):
         report(ctx, i, "hist", found, hist)
         if stop:
             break
-    for i in range(ctx.budget(80, 1400)):
+    for i in range(ctx.budget(80, 900)):
         found, case = await asyncio.to_thread(run_tree_case, ctx, i)
         st.case(("tree", tuple(case["mutations"]), tuple(sorted(case["plans"].items(), key=str))),
                 nontrivial=bool(case.get("compared")))
@@ -531,7 +517,7 @@ async def search(ctx):
                 "case": {"verif_seed": ctx.seed, "salt": "tree", "index": i}, **extra,
                 "how": "props/c01.py run_tree_case(ctx, index): buildkit.gen_tree_history (nested and sibling "
                        "plans), compared with a build from scratch of the final tree"}))
-    for i in range(ctx.budget(20, 400)):
+    for i in range(ctx.budget(20, 250)):
         found, case = await asyncio.to_thread(run_redef_case, ctx, i)
         st.case(("redef", tuple(sorted((k, str(v)) for k, v in case.items()))))
         st.programs += 1
@@ -571,6 +557,12 @@ async def replay(ctx, detail):
     os.environ["VERIF_SEED"] = str(case.get("verif_seed", 0))
     ctx.seed = int(case.get("verif_seed", 0))
     sig = detail.get("signature", "")
+    if d.get("explicit"):
+        initial, events, final_project, seed, fresh_kwargs = buildkit.unpack_case(d["explicit"])
+        found, summary = await asyncio.to_thread(evaluate, initial, events, final_project, seed, fresh_kwargs,
+                                                 d["explicit"].get("reverted_env", ()))
+        return {"reproduced": any(s == sig for s, _, _ in found), "signature": sig, "replayed_from": "explicit data",
+                "found": [[s, w] for s, w, _ in found], "summary": summary}
     if case.get("salt") == "redef":
         found, summary = await asyncio.to_thread(run_redef_case, ctx, int(case.get("index", 0)))
     elif case.get("salt") == "tree":
